@@ -212,8 +212,8 @@ async def kiq_case(asyncs, fail_at):
     return pr
 
 # ---------------------------------------------------------------- (d)
-def loop_case(start_off, horizon, oneshots, crons, failing_source, failing_send, slow_listing=0.0, host_offset_h=0.0, check_oneshots=None, stable_ids=False, entry='loop', base_hms=(12, 0, 0)):
-    """oneshots: list of offsets (s) from BASE; crons: list of cron expressions"""
+def loop_case(start_off, horizon, oneshots, crons, failing_source, failing_send, slow_listing=0.0, host_offset_h=0.0, check_oneshots=None, stable_ids=False, entry='loop', base_hms=(12, 0, 0), slow_send=0.0, twin_source=False):
+    """slow_send: every send takes that long (its start is what counts); twin_source: a second source lists the same schedules under the same ids. oneshots: list of offsets (s) from BASE; crons: list of cron expressions"""
     import taskiq.cli.scheduler.run as run_mod
     from taskiq import TaskiqScheduler, ScheduleSource
     from taskiq.schedule_sources import LabelScheduleSource
@@ -235,6 +235,7 @@ def loop_case(start_off, horizon, oneshots, crons, failing_source, failing_send,
         async def kick(self, m):
             if failing_send and m.task_name == 'cron0' and not getattr(self, 'failed_once', False): self.failed_once = True; raise RuntimeError("send failed")
             sent.append((round(loop.time(), 3), m.task_name))
+            if slow_send: await asyncio.sleep(slow_send)          # the send is under way (recorded at its start) and stays in flight across the next poll(s)
         async def listen(self): yield b""
     b = B()
     async def f(): pass
@@ -260,7 +261,13 @@ def loop_case(start_off, horizon, oneshots, crons, failing_source, failing_send,
                 else: self.cache = [x for x in self.cache if x is not task and x.schedule_id != task.schedule_id]
     class AsyncStable(Stable):          # the same with an `async def post_send` (allowed by ScheduleSource): on_ready must await it
         async def post_send(self, task): Stable.post_send(self, task)
+    class Twin(ScheduleSource):          # a second, independent source that happens to list the same schedules under the same ids (two sources reading one table)
+        def __init__(self, first): self.first = first
+        async def get_schedules(self):
+            if self.first.cache is None: await self.first.get_schedules()
+            return list(self.first.cache)
     sources = [Slow(b) if slow_listing else ((AsyncStable if stable_ids == 'async' else Stable)(LabelScheduleSource(b)) if stable_ids else LabelScheduleSource(b))] + ([Bad()] if failing_source else [])
+    if twin_source: sources.append(Twin(sources[0]))
     class Runaway(BaseException): pass
     polls = [0]; poll_cap = (int(horizon // 60) + 3) * 10
     for src_ in sources:          # a poll is due at start and at every minute boundary: far more polls than minutes means the sleep between polls is not positive
@@ -298,7 +305,9 @@ def loop_case(start_off, horizon, oneshots, crons, failing_source, failing_send,
     for i, c in enumerate(crons):
         k = sorted(s[0] for s in sent if s[1] == f'cron{i}')
         mins = sorted({int(x // 60) for x in k})
-        if len(mins) != len(k): pr.append(f"C15: cron schedule {c!r} sent more than once in a minute: {k}")
+        mult = 2 if twin_source else 1
+        if twin_source and len(k) != 2 * len(mins): pr.append(f"C15: two sources list the cron schedule {c!r} (same schedule id): each source's occurrence must be sent, one send per source and matching minute; sends at {k[:10]}")
+        elif len(mins) != len(k) and not twin_source: pr.append(f"C15: cron schedule {c!r} sent more than once in a minute: {k}")
         first = int(start_off // 60); last = int((horizon - 1) // 60)
         import pycron
         if isinstance(c, dict):          # cron entry with an offset: the wall clock it is matched against is UTC shifted by the offset (timedelta) / the zone's local time
@@ -365,6 +374,13 @@ def run(sc):
         for start_off in (0.4, 59.7):          # a send that fails once must not affect later occurrences, also for sources that list the same schedule ids at every poll
             pr = loop_case(start_off, 330.0, [90.0], ['* * * * *', '*/2 * * * *'], False, True, stable_ids=True); n += 1
             if pr: fails.append({'key': f"loop/start+{start_off}/stable-ids/failing-send", 'failed_clauses': pr})
+        # sends that take longer than a minute (a slow broker): the occurrence of the NEXT minute is due all the same - with ids that change per poll and with stable ids
+        for stable in (False, True):
+            pr = loop_case(0.4, 330.0, [], ['* * * * *', '*/2 * * * *'], False, False, stable_ids=stable, slow_send=75.0); n += 1
+            if pr: fails.append({'key': f"loop/slow-send=75s/stable-ids={stable}", 'failed_clauses': pr})
+        # two sources that list the same schedules under the same ids: sources are independent, each one's occurrence is sent
+        pr = loop_case(0.4, 330.0, [], ['* * * * *', '*/2 * * * *'], False, False, stable_ids=True, twin_source=True); n += 1
+        if pr: fails.append({'key': "loop/twin-sources-same-ids", 'failed_clauses': pr})
         # a long life: 25 hours with a stable-id source - an expression that matches once a day (and one that matches once an hour) fires again on day 2
         pr = loop_case(0.4, 25 * 3600.0 + 330.0, [], ['5 12 * * *', '0 * * * *'], False, False, stable_ids=True); n += 1
         if pr: fails.append({'key': "loop/25-hours/stable-ids", 'failed_clauses': pr[:6]})
